@@ -13,6 +13,7 @@ use purl::{GenericPurl, GenericPurlBuilder, ParseError, PurlShape};
 use serde_json::{json, Value};
 
 mod quals;
+mod shape;
 mod tables;
 
 pub fn hx(s: &str) -> String {
@@ -363,6 +364,7 @@ fn handle(req: &Value) -> Value {
             json!({ "res": rs })
         },
         "pair" => pair_dispatch(req),
+        "shape" => shape::run(req),
         #[cfg(feature = "pt")]
         "both" => {
             // the same string through the type-agnostic and the typed parser, plus the documented name rules
